@@ -413,6 +413,91 @@ func (s *LSpec) genLexInputs(r *Rng, n int) [][]byte {
 		}
 	}
 	add(nil)
+	// every string up to length 3 over a few characters the rules mention (inputs ending in the
+	// middle of every construct)
+	var reps []int
+	seenRep := map[int]bool{}
+	var collect func(e *LExpr)
+	collect = func(e *LExpr) {
+		for _, a := range e.Alts {
+			for _, t := range a {
+				switch t.Kind {
+				case LLit:
+					for _, c := range t.Lit {
+						if !seenRep[c] {
+							seenRep[c] = true
+							reps = append(reps, c)
+						}
+					}
+				case LClass:
+					for _, rg := range t.Class.Set() {
+						if !seenRep[rg.B] {
+							seenRep[rg.B] = true
+							reps = append(reps, rg.B)
+						}
+					}
+				case LGroup:
+					collect(t.Group)
+				case LRef:
+					collect(s.Macros[t.Ref])
+				}
+			}
+		}
+	}
+	for _, m := range s.Modes {
+		for _, ru := range m.Rules {
+			collect(ru.Expr)
+		}
+	}
+	if len(reps) > 4 {
+		for i := len(reps) - 1; i > 0; i-- {
+			j := r.Intn(i + 1)
+			reps[i], reps[j] = reps[j], reps[i]
+		}
+		reps = reps[:4]
+	}
+	var recShort func(cur []int)
+	recShort = func(cur []int) {
+		if len(cur) > 0 {
+			add(encodeRunes(cur))
+		}
+		if len(cur) == 3 {
+			return
+		}
+		for _, c := range reps {
+			recShort(append(append([]int(nil), cur...), c))
+		}
+	}
+	recShort(nil)
+	// every proper prefix of a few matches of every rule (default-mode rules directly; rules of other
+	// modes after a match of a rule that pushes their mode when there is one)
+	for mi, m := range s.Modes {
+		var lead []int
+		if mi > 0 {
+			for _, m0 := range s.Modes {
+				for _, ru := range m0.Rules {
+					for _, a := range ru.Acts {
+						if a.Kind == "push" && a.Mode == mi && lead == nil && m0 == s.Modes[0] {
+							s.sampleExpr(r, ru.Expr, &lead, 3)
+						}
+					}
+				}
+			}
+			if lead == nil {
+				continue
+			}
+		}
+		for _, ru := range m.Rules {
+			for k := 0; k < 2; k++ {
+				cs := append([]int(nil), lead...)
+				s.sampleExpr(r, ru.Expr, &cs, 3)
+				for cut := len(lead); cut <= len(cs) && cut <= len(lead)+12; cut++ {
+					add(encodeRunes(cs[:cut]))
+				}
+			}
+		}
+	}
+	n += len(ins)
 	var allRules []*LRule
 	for _, m := range s.Modes {
 		allRules = append(allRules, m.Rules...)
